@@ -367,12 +367,16 @@ def _call_vf(c, t, y, args, hist):
         pass
     if be in ("default", "numpy", None):
         yy = np.array(y, dtype=np.asarray(args[1]).dtype)
+        if c.dde:
+            # DDE functions: (t, y, hist, dy, *params); the returned args hold a DDEHistory at position 2
+            h = hist if hist is not None else rest[0]
+            rest = rest[1:]
         if c.inplace:
             dy = np.zeros_like(np.asarray(rest[0]))
             extra = rest[1:]
-            out = c.func(t, yy, hist, dy, *extra) if c.dde else c.func(t, yy, dy, *extra)
+            out = c.func(t, yy, h, dy, *extra) if c.dde else c.func(t, yy, dy, *extra)
         else:
-            out = c.func(t, yy, hist, *rest) if c.dde else c.func(t, yy, *rest)
+            out = c.func(t, yy, h, *rest) if c.dde else c.func(t, yy, *rest)
         return np.array(out, dtype=float).ravel().copy()
     if be == "torch":
         import torch
